@@ -2,6 +2,7 @@ package rules
 
 import (
 	"fmt"
+	"go/token"
 	"sort"
 	"strings"
 
@@ -615,6 +616,7 @@ func c104(c *an.Ctx, p *an.Prog) {
 		}
 		c.Check(len(bad) == 0, "C10.4", "hooks|never-waits", p.Pos(hr.Pos()), "the hooks goroutine only waits in its own receive-select; hook processes are started, never waited for, on its path", strings.Join(uniqS(bad), "; "))
 	}
+	semaphoreReleased(c, p, "C10.4")
 	if ru := p.Func("/cmd/whawty-auth", "remoteHTTPUpgrader"); need(c, "C10.4", ru, "main.remoteHTTPUpgrader") {
 		bad := slowCalls(p, ru)
 		for _, o := range p.ChanOps() {
@@ -626,5 +628,126 @@ func c104(c *an.Ctx, p *an.Prog) {
 			}
 		}
 		c.Check(len(bad) == 0, "C10.4", "remote-upgrader|drains-without-blocking", p.Pos(ru.Pos()), "semaphore taken only in a select with default; the HTTP call runs behind `go`", strings.Join(uniqS(bad), "; "))
+	}
+}
+
+// releasesChan: does function f, on every path to every exit, receive from the channel bound to free variable /
+// parameter `name` (directly, through a deferred closure, or by calling a function-typed parameter that the
+// caller bound to a closure doing so)?
+func receivesOn(fn *ssa.Function, isSem func(v ssa.Value) bool) bool {
+	for _, b := range fn.Blocks {
+		for _, in := range b.Instrs {
+			if u, ok := in.(*ssa.UnOp); ok && u.Op == token.ARROW && isSem(u.X) {
+				return true
+			}
+		}
+	}
+	return false
+}
+
+// semaphoreReleased: a goroutine started after taking a slot of a counting-semaphore channel (send in a select)
+// gives the slot back on every path — otherwise failures leak slots until every later job is refused.
+func semaphoreReleased(c *an.Ctx, p *an.Prog, rule string) {
+	ru := p.Func("/cmd/whawty-auth", "remoteHTTPUpgrader")
+	if ru == nil {
+		return
+	}
+	// the semaphore: a local make(chan) used as a select-send in ru
+	var sem *ssa.MakeChan
+	for _, b := range ru.Blocks {
+		for _, in := range b.Instrs {
+			if sel, ok := in.(*ssa.Select); ok {
+				for _, st := range sel.States {
+					if st.Send != nil {
+						v := st.Chan
+						if u, ok := v.(*ssa.UnOp); ok {
+							if al, ok := u.X.(*ssa.Alloc); ok {
+								for _, r := range *al.Referrers() {
+									if s2, ok := r.(*ssa.Store); ok {
+										if mk, ok := s2.Val.(*ssa.MakeChan); ok {
+											sem = mk
+										}
+									}
+								}
+							}
+						}
+						if mk, ok := v.(*ssa.MakeChan); ok {
+							sem = mk
+						}
+					}
+				}
+			}
+		}
+	}
+	if sem == nil {
+		c.Undecided(rule, fnKey(ru)+"|semaphore", p.Pos(ru.Pos()), "UNRESOLVED: no counting semaphore (select-send on a local channel) found in the remote upgrader")
+		return
+	}
+	n := 0
+	for _, gs := range p.GoSites() {
+		if gs.Parent != ru {
+			continue
+		}
+		n++
+		var bad []string
+		for _, job := range gs.Callees {
+			// closures that release the semaphore: those (transitively nested in ru) that receive from a free variable named like the semaphore cell
+			releasers := map[*ssa.Function]bool{}
+			var collect func(f *ssa.Function)
+			collect = func(f *ssa.Function) {
+				for _, af := range f.AnonFuncs {
+					if receivesOn(af, func(v ssa.Value) bool {
+						if u, ok := v.(*ssa.UnOp); ok {
+							_, isFV := u.X.(*ssa.FreeVar)
+							return isFV
+						}
+						_, isFV := v.(*ssa.FreeVar)
+						return isFV
+					}) {
+						releasers[af] = true
+					}
+					collect(af)
+				}
+			}
+			collect(ru)
+			// which parameters of job are bound to a releaser closure at the go site?
+			relParams := map[int]bool{}
+			if !gs.In.Common().IsInvoke() {
+				for i, a := range gs.In.Common().Args {
+					if mc, ok := a.(*ssa.MakeClosure); ok && releasers[mc.Fn.(*ssa.Function)] {
+						relParams[i] = true
+					}
+				}
+			}
+			nexit := 0
+			er := an.EnumPaths(job, nil, nil, func(s *an.PathState) {
+				nexit++
+				released := false
+				for _, e := range s.Events {
+					switch {
+					case e.Kind == "recv":
+						released = true // the job's only channel is the semaphore cell it captured
+					case e.Kind == "call" && e.Fn != nil && releasers[e.Fn]:
+						released = true
+					case e.Kind == "call" && strings.HasPrefix(e.Callee, "dynamic p:"):
+						for i, prm := range job.Params {
+							if relParams[i] && e.Callee == "dynamic p:"+prm.Name() {
+								released = true
+							}
+						}
+					}
+				}
+				if !released {
+					bad = append(bad, fmt.Sprintf("%s can finish without giving its rate-limit slot back (path %s [%s]): after %d such failures every later upgrade is refused", fnKey(job), s.BlockPath(), s.FactsString(), an.ChanCap(sem)))
+				}
+			})
+			if !er.Complete || nexit == 0 {
+				bad = append(bad, "cannot enumerate the job's paths")
+			}
+		}
+		c.Check(len(bad) == 0, rule, fnKey(ru)+"|slot-released-on-every-path", p.InstrPos(gs.In), "the upgrade job releases its semaphore slot on every exit (deferred)", strings.Join(uniqS(bad), "; "))
+	}
+	if n == 0 {
+		c.Undecided(rule, fnKey(ru)+"|job", p.Pos(ru.Pos()), "UNRESOLVED: the remote upgrader starts no job goroutine")
 	}
 }
